@@ -164,7 +164,7 @@ func runC04(c *fw.Ctx, idx int) fw.Result {
 	if r.Chance(0.25) {
 		form = "sam"
 	}
-	opts := gen.AnnoOpts{MaxFeats: 6, AllowUnnamed: true, AllowSlip: true, SplitCodons: true}
+	opts := gen.AnnoOpts{MaxFeats: 6, AllowUnnamed: true, AllowSlip: true, SplitCodons: true, Isoforms: true}
 	ac := makeAnnoCase(r, c.Thorough(), format, form, gen.DefaultVarProfile(), 8, opts)
 	threads := pickThreads(r)
 	outA, errA := ac.runVariants(-1, -1, false, 0, true, threads)
